@@ -1,3 +1,5 @@
 pub mod devices;
+pub mod expr;
+pub mod ihex;
 pub mod isa;
 pub mod llvm;
